@@ -369,6 +369,13 @@ theorem cstep_safe {D : StdDist Int δ} (hU : D.UniformInt) (G : Gen γ) (n : Na
       simp only [List.mem_singleton] at hev
       subst hev
       exact ⟨hlt, he⟩
+  | raw =>
+    right
+    refine ⟨_, rfl, hinv, ?_⟩
+    intro ev hev
+    simp only [List.mem_singleton] at hev
+    subst hev
+    trivial
 
 theorem runCScript_safe {D : StdDist Int δ} (hU : D.UniformInt) (G : Gen γ) (n : Nat) :
     ∀ (acts : List (CAct α)) (c : List α) (s : Nat → Option (Basic δ)) (g : γ), CInv D n c s → (∀ a ∈ acts, CActValid n a) →
@@ -395,6 +402,7 @@ theorem runCScript_safe {D : StdDist Int δ} (hU : D.UniformInt) (G : Gen γ) (n
           cases ev with
           | made b => trivial
           | elem e idx => exact this.1
+          | raw n => trivial
         · exact hevs ev h2
 
 end containers
